@@ -182,38 +182,88 @@ package txnprovider
 // ---- assembling the operations: every index is covered by the validated counts ----
 //
 //@ spec mOpsNonNil(ops []*model.Operation) bool { forall q int :: 0 <= q && q < len(ops) ==> ops[q] != nil }
+// the operation objects built while parsing the index files are new and pairwise different objects
+//@ spec mOpsNew(ops []*model.Operation) bool { forall q int :: 0 <= q && q < len(ops) ==> ops[q] != nil && fresh(ops[q]) && allocated(ops[q]) }
+//@ spec mOpsDistinct(ops []*model.Operation) bool { forall p int, q int :: 0 <= p && p < q && q < len(ops) ==> ops[p] != ops[q] }
+//@ spec mOpsDisjoint(a []*model.Operation, b []*model.Operation) bool { forall p int, q int :: 0 <= p && p < len(a) && 0 <= q && q < len(b) ==> a[p] != b[q] }
 //
 //@ func (*OperationProvider).parseCoreIndexOperations
 //@   requires provOK(h) && t != nil && cif != nil
 //@   requires cif.Operations != nil ==> (forall q int :: 0 <= q && q < len(cif.Operations.Create) ==> cif.Operations.Create[q].SuffixData != nil)
 //@   loop 1
-//@     invariant len(createOps) == _k && len(suffixes) == _k && mOpsNonNil(createOps)
+//@     invariant len(createOps) == _k && len(suffixes) == _k && mOpsNonNil(createOps) && mOpsNew(createOps) && mOpsDistinct(createOps)
 //@   loop 2
 //@     invariant len(recoverOps) == _k && mOpsNonNil(recoverOps) && mOpsNonNil(createOps) && len(createOps) == len(cif.Operations.Create) && len(suffixes) == len(cif.Operations.Create) + _k
+//@     invariant arrOf(recoverOps) == 0 || arrOf(recoverOps) != arrOf(createOps)
+//@     invariant mOpsNew(createOps) && mOpsDistinct(createOps)
+//@     invariant mOpsNew(recoverOps)
+//@     invariant mOpsDistinct(recoverOps)
+//@     invariant mOpsDisjoint(createOps, recoverOps)
 //@   loop 3
 //@     invariant len(deactivateOps) == _k && mOpsNonNil(deactivateOps) && mOpsNonNil(recoverOps) && mOpsNonNil(createOps) && len(createOps) == len(cif.Operations.Create) && len(recoverOps) == len(cif.Operations.Recover) && len(suffixes) == len(cif.Operations.Create) + len(cif.Operations.Recover) + _k
+//@     invariant arrOf(deactivateOps) == 0 || (arrOf(deactivateOps) != arrOf(createOps) && arrOf(deactivateOps) != arrOf(recoverOps))
+//@     invariant mOpsNew(createOps) && mOpsDistinct(createOps) && mOpsNew(recoverOps) && mOpsDistinct(recoverOps) && mOpsDisjoint(createOps, recoverOps)
+//@     invariant mOpsNew(deactivateOps)
+//@     invariant mOpsDistinct(deactivateOps)
+//@     invariant mOpsDisjoint(createOps, deactivateOps)
+//@     invariant mOpsDisjoint(recoverOps, deactivateOps)
 //@   results r, err
 //@   ensures err == nil ==> r != nil && fresh(r) && len(r.Create) == nC(cif) && len(r.Recover) == nR(cif) && len(r.Deactivate) == nD(cif) && len(r.Suffixes) == nC(cif) + nR(cif) + nD(cif)
 //@   ensures err == nil ==> mOpsNonNil(r.Create) && mOpsNonNil(r.Recover) && mOpsNonNil(r.Deactivate)
+//@   ensures err == nil ==> (arrOf(r.Suffixes) == 0 || fresh(r.Suffixes))
+//@   ensures err == nil ==> mOpsNew(r.Create) && mOpsNew(r.Recover) && mOpsNew(r.Deactivate) && mOpsDistinct(r.Create) && mOpsDistinct(r.Recover) && mOpsDistinct(r.Deactivate) && mOpsDisjoint(r.Create, r.Recover) && mOpsDisjoint(r.Create, r.Deactivate) && mOpsDisjoint(r.Recover, r.Deactivate)
 //
 //@ func parseProvisionalIndexOperations
 //@   requires pif != nil
 //@   loop 1
 //@     invariant len(updateOps) == _k && len(suffixes) == _k && mOpsNonNil(updateOps)
+//@     invariant mOpsNew(updateOps)
+//@     invariant mOpsDistinct(updateOps)
 //@   ensures result != nil && fresh(result) && len(result.Update) == nU(pif) && len(result.Suffixes) == nU(pif) && mOpsNonNil(result.Update)
+//@   ensures mOpsNew(result.Update) && mOpsDistinct(result.Update)
 //
+// ghost: the operation models handed to createAnchoredOperations (what the observer will store)
+//@ ghost assembled []*model.Operation
 //@ func createAnchoredOperations
 //@   requires mOpsNonNil(ops)
+//@   sets assembled = ops
 //@   loop 1
 //@     invariant len(anchoredOps) == _k && mOpsNonNil(ops) && (forall q int :: 0 <= q && q < len(anchoredOps) ==> anchoredOps[q] != nil)
 //@   results a, err
 //@   ensures err == nil ==> len(a) == len(ops) && (forall q int :: 0 <= q && q < len(a) ==> a[q] != nil)
 //
+// the i-th recover / deactivate gets the i-th signed data of the core proof file, the i-th update the i-th signed data of
+// the provisional proof file, and the q-th operation of create ++ recover ++ update the q-th delta of the chunk file;
+// what is handed to createAnchoredOperations (ghost assembled) is create ++ recover ++ update ++ deactivate
 //@ func (*OperationProvider).assembleAnchoredOperations
 //@   requires provOK(h) && t != nil && filesOK(batchFiles) && coreIndexOK(h, batchFiles.CoreIndex)
 //@   requires batchFiles.CoreIndex.ProvisionalIndexFileURI != "" ==> provIndexOK(h, batchFiles.ProvisionalIndex) && (forall q int :: 0 <= q && q < len(batchFiles.Chunk.Deltas) ==> batchFiles.Chunk.Deltas[q] != nil)
+//@   loop 1
+//@     invariant cifOps != nil && len(cifOps.Create) == nC(batchFiles.CoreIndex) && len(cifOps.Recover) == nR(batchFiles.CoreIndex) && len(cifOps.Deactivate) == nD(batchFiles.CoreIndex) && mOpsNonNil(cifOps.Create) && mOpsNonNil(cifOps.Recover) && mOpsNonNil(cifOps.Deactivate) && mOpsDistinct(cifOps.Recover) && mOpsDistinct(cifOps.Deactivate) && mOpsDisjoint(cifOps.Create, cifOps.Recover) && mOpsDisjoint(cifOps.Create, cifOps.Deactivate) && mOpsDisjoint(cifOps.Recover, cifOps.Deactivate) && mOpsNew(cifOps.Create) && mOpsNew(cifOps.Recover) && mOpsNew(cifOps.Deactivate) && framed()
+//@     invariant forall q int :: 0 <= q && q < _k ==> cifOps.Deactivate[q].SignedData == batchFiles.CoreProof.Operations.Deactivate[q]
+//@   loop 2
+//@     invariant cifOps != nil && len(cifOps.Create) == nC(batchFiles.CoreIndex) && len(cifOps.Recover) == nR(batchFiles.CoreIndex) && len(cifOps.Deactivate) == nD(batchFiles.CoreIndex) && mOpsNonNil(cifOps.Create) && mOpsNonNil(cifOps.Recover) && mOpsNonNil(cifOps.Deactivate) && mOpsDistinct(cifOps.Recover) && mOpsDistinct(cifOps.Deactivate) && mOpsDisjoint(cifOps.Create, cifOps.Recover) && mOpsDisjoint(cifOps.Create, cifOps.Deactivate) && mOpsDisjoint(cifOps.Recover, cifOps.Deactivate) && mOpsNew(cifOps.Create) && mOpsNew(cifOps.Recover) && mOpsNew(cifOps.Deactivate) && framed() && mOpsNew(pifOps.Update) && pifOps != nil && len(pifOps.Update) == nU(batchFiles.ProvisionalIndex) && mOpsNonNil(pifOps.Update) && mOpsDistinct(pifOps.Update) && mOpsDisjoint(cifOps.Create, pifOps.Update) && mOpsDisjoint(cifOps.Recover, pifOps.Update) && mOpsDisjoint(cifOps.Deactivate, pifOps.Update)
+//@     invariant len(operations) == len(cifOps.Create) && (forall q int :: 0 <= q && q < len(cifOps.Create) ==> operations[q] == cifOps.Create[q])
+//@     invariant (forall q int :: 0 <= q && q < len(cifOps.Deactivate) ==> cifOps.Deactivate[q].SignedData == batchFiles.CoreProof.Operations.Deactivate[q])
+//@     invariant (forall q int :: 0 <= q && q < _k ==> cifOps.Recover[q].SignedData == batchFiles.CoreProof.Operations.Recover[q])
+//@   loop 3
+//@     invariant cifOps != nil && len(cifOps.Create) == nC(batchFiles.CoreIndex) && len(cifOps.Recover) == nR(batchFiles.CoreIndex) && len(cifOps.Deactivate) == nD(batchFiles.CoreIndex) && mOpsNonNil(cifOps.Create) && mOpsNonNil(cifOps.Recover) && mOpsNonNil(cifOps.Deactivate) && mOpsDistinct(cifOps.Recover) && mOpsDistinct(cifOps.Deactivate) && mOpsDisjoint(cifOps.Create, cifOps.Recover) && mOpsDisjoint(cifOps.Create, cifOps.Deactivate) && mOpsDisjoint(cifOps.Recover, cifOps.Deactivate) && mOpsNew(cifOps.Create) && mOpsNew(cifOps.Recover) && mOpsNew(cifOps.Deactivate) && framed() && mOpsNew(pifOps.Update) && pifOps != nil && len(pifOps.Update) == nU(batchFiles.ProvisionalIndex) && mOpsNonNil(pifOps.Update) && mOpsDistinct(pifOps.Update) && mOpsDisjoint(cifOps.Create, pifOps.Update) && mOpsDisjoint(cifOps.Recover, pifOps.Update) && mOpsDisjoint(cifOps.Deactivate, pifOps.Update)
+//@     invariant len(operations) == len(cifOps.Create) + len(cifOps.Recover) && (forall q int :: 0 <= q && q < len(cifOps.Create) ==> operations[q] == cifOps.Create[q]) && (forall q int :: 0 <= q && q < len(cifOps.Recover) ==> operations[len(cifOps.Create) + q] == cifOps.Recover[q])
+//@     invariant (forall q int :: 0 <= q && q < len(cifOps.Deactivate) ==> cifOps.Deactivate[q].SignedData == batchFiles.CoreProof.Operations.Deactivate[q])
+//@     invariant (forall q int :: 0 <= q && q < len(cifOps.Recover) ==> cifOps.Recover[q].SignedData == batchFiles.CoreProof.Operations.Recover[q])
+//@     invariant (forall q int :: 0 <= q && q < _k ==> pifOps.Update[q].SignedData == batchFiles.ProvisionalProof.Operations.Update[q])
+//@   loop 4
+//@     invariant mOpsNonNil(operations) && len(operations) == len(batchFiles.Chunk.Deltas) && mOpsNew(operations) && framed()
+//@     invariant forall q int :: 0 <= q && q < _k ==> operations[q].Delta == batchFiles.Chunk.Deltas[q]
 //@   results a, err
 //@   ensures err == nil ==> (forall q int :: 0 <= q && q < len(a) ==> a[q] != nil)
+//@   ensures err == nil && batchFiles.CoreIndex.ProvisionalIndexFileURI == "" ==> len(assembled) == nD(batchFiles.CoreIndex) && (forall q int :: 0 <= q && q < nD(batchFiles.CoreIndex) ==> assembled[q].SignedData == batchFiles.CoreProof.Operations.Deactivate[q])
+//@   ensures err == nil && batchFiles.CoreIndex.ProvisionalIndexFileURI != "" ==> len(assembled) == nC(batchFiles.CoreIndex) + nR(batchFiles.CoreIndex) + nU(batchFiles.ProvisionalIndex) + nD(batchFiles.CoreIndex)
+//@   ensures err == nil && batchFiles.CoreIndex.ProvisionalIndexFileURI != "" ==> (forall q int :: 0 <= q && q < nD(batchFiles.CoreIndex) ==> assembled[nC(batchFiles.CoreIndex) + nR(batchFiles.CoreIndex) + nU(batchFiles.ProvisionalIndex) + q].SignedData == batchFiles.CoreProof.Operations.Deactivate[q])
+//@   ensures err == nil && batchFiles.CoreIndex.ProvisionalIndexFileURI != "" ==> (forall q int :: 0 <= q && q < nR(batchFiles.CoreIndex) ==> assembled[nC(batchFiles.CoreIndex) + q].SignedData == batchFiles.CoreProof.Operations.Recover[q])
+//@   ensures err == nil && batchFiles.CoreIndex.ProvisionalIndexFileURI != "" ==> (forall q int :: 0 <= q && q < nU(batchFiles.ProvisionalIndex) ==> assembled[nC(batchFiles.CoreIndex) + nR(batchFiles.CoreIndex) + q].SignedData == batchFiles.ProvisionalProof.Operations.Update[q])
+//@   ensures err == nil && batchFiles.CoreIndex.ProvisionalIndexFileURI != "" ==> (forall q int :: 0 <= q && q < nC(batchFiles.CoreIndex) + nR(batchFiles.CoreIndex) + nU(batchFiles.ProvisionalIndex) ==> assembled[q].Delta == batchFiles.Chunk.Deltas[q])
+//@   modifies assembled
 //
 // C14: on success the number of operations equals the anchor string's count, and none is nil
 //@ spec anchorCount(s string) Z
